@@ -43,6 +43,7 @@ Defs == {
   Def("twice_lit", "Given", "regex", "^twice$"),                   \* the same fn `twice` under two attributes
   Def("twice", "Then", "regex", "^twice (\\d+)$"),
   Def("okres", "Given", "regex", "^okres$"),
+  Def("alias_fails", "Then", "regex", "^alias fails$"),            \* returns Err through a type alias of Result
   Def("opts", "When", "regex", "^opts (\\w*) (\\w*)(?: (\\w+))?$"),   \* slice argument, captures may be empty
   Def("calc", "When", "expr", "calc \\(x\\) {word}") }              \* escaped parentheses
 
@@ -91,6 +92,7 @@ Matches == {
   M("twice_lit", "twice", "twice()", TRUE),
   M("twice", "twice 4", "twice(4)", TRUE),
   M("okres", "okres", "okres()", TRUE),
+  M("alias_fails", "alias fails", "alias_fails()", FALSE),
   M("opts", "opts a b c", "opts(a,b,c)", TRUE),
   M("opts", "opts  b", "opts(,b,)", TRUE),          \* an empty capture and a group that did not participate stay in the slice
   M("opts", "opts a ", "opts(a,,)", TRUE),
